@@ -112,7 +112,9 @@ impl HasGenValueInfo for ParserNode {
             }
             ParserNode::Arith(expr) => {
                 if expr.rs1 == Register::X0 && expr.rs2 == Register::X0 {
-                    Some((expr.rd.get(), AvailableValue::Constant(0)))
+                    // Not every operator maps two zeros to zero: 0 / 0 is -1
+                    let value = self.inst().math_op().map_or(0, |op| op.operate(0, 0));
+                    Some((expr.rd.get(), AvailableValue::Constant(value)))
                 } else {
                     None
                 }
